@@ -117,11 +117,11 @@ def run(ctx, monitors):
         {"cfg": "MC_SyncClient_repair.cfg", "expect_ok": False},
         {"cfg": "MC_SyncClient_repair_clean.cfg"},
         {"cfg": "MC_SyncClient_run_live.cfg"},
-        {"cfg": "MC_SyncClient_follow_live.cfg", "expect_ok": False},
-        {"cfg": "MC_SyncClient_repair_live.cfg", "expect_ok": False},
     ]
     if not q:
         jobs += [
+            {"cfg": "MC_SyncClient_follow_live.cfg", "expect_ok": False},
+            {"cfg": "MC_SyncClient_repair_live.cfg", "expect_ok": False},
             {"cfg": "MC_SyncClient_run_big.cfg", "timeout": 1500, "workers": 8},
             {"cfg": "MC_SyncClient_race_big.cfg", "timeout": 1500, "workers": 8},
             {"cfg": "MC_SyncClient_follow_chained_big.cfg", "timeout": 900},
@@ -131,7 +131,11 @@ def run(ctx, monitors):
             {"cfg": "MC_SyncClient_follow_live_nostall.cfg", "timeout": 900},
             {"cfg": "MC_SyncClient_repair_live_nostall.cfg", "timeout": 900},
         ]
-    res = mc_parallel(ctx, jobs, par=4 if core.NCPU >= 16 else 2)
+    if os.environ.get("VERIF_C10_FAST"):      # development aid for the mutation self-tests: real-code part only
+        jobs = []
+        ctx.exhaustive = False
+        ctx.notes.append("VERIF_C10_FAST set: exhaustive design configs skipped")
+    res = mc_parallel(ctx, jobs, par=3 if core.NCPU >= 12 else 2)
     scenarios = []
     for j in jobs:
         if j.get("expect_ok", True):
